@@ -54,3 +54,21 @@ pub(crate) fn step(state: u32, inputs: &[u8]) -> u32 {
     }
     s
 }
+
+/// Zero-sized error for stubs.
+#[derive(Debug)]
+pub(crate) struct VErr;
+impl core::fmt::Display for VErr {
+    fn fmt(&self, _f: &mut core::fmt::Formatter<'_>) -> core::fmt::Result {
+        Ok(())
+    }
+}
+impl std::error::Error for VErr {}
+
+/// Stub for `compression::decode` where the payload is not the subject: always "undecodable".
+pub(crate) fn stub_decode_err(
+    _reference: &[u8],
+    _data: &[u8],
+) -> Result<Vec<Vec<u8>>, Box<dyn std::error::Error + Send + Sync>> {
+    Err(Box::new(VErr))
+}
